@@ -179,6 +179,38 @@ fn eval_conv(c: &Value) -> Value {
     json!(r)
 }
 
+// metadata of each level, for asking a LevelFilter layer directly
+struct NoCs;
+impl tracing_core::Callsite for NoCs {
+    fn set_interest(&self, _: Interest) {}
+    fn metadata(&self) -> &Metadata<'_> {
+        &METAS[0]
+    }
+}
+static NOCS: NoCs = NoCs;
+macro_rules! meta_at {
+    ($lvl:expr) => {
+        Metadata::new("probe", "c19", $lvl, None, None, None, tracing_core::field::FieldSet::new(&[], tracing_core::identify_callsite!(&NOCS)), tracing_core::metadata::Kind::EVENT)
+    };
+}
+static METAS: [Metadata<'static>; 5] = [meta_at!(Level::ERROR), meta_at!(Level::WARN), meta_at!(Level::INFO), meta_at!(Level::DEBUG), meta_at!(Level::TRACE)];
+
+/// tracing-subscriber's LevelFilter as a layer on a Registry: what the stack answers for metadata of level `l`
+fn eval_layer(c: &Value) -> Value {
+    use tracing_subscriber::prelude::*;
+    let (l, f) = (c["l"].as_u64().unwrap(), c["f"].as_u64().unwrap());
+    let stack = tracing_subscriber::registry().with(filter(f));
+    let meta: &'static Metadata<'static> = &METAS[(l - 1) as usize];
+    match c["q"].as_str().unwrap() {
+        "enabled" => json!(b(Collect::enabled(&stack, meta))),
+        "interest" => {
+            let i = Collect::register_callsite(&stack, meta);
+            json!(if i.is_never() { 0 } else if i.is_always() { 2 } else { 1 })
+        }
+        _ => json!(stack.max_level_hint().map(|h| rank_of_filter(&h) as i64).unwrap_or(-1)),
+    }
+}
+
 struct Hinted(Option<LevelFilter>);
 impl Collect for Hinted {
     fn register_callsite(&self, _: &'static Metadata<'static>) -> Interest {
@@ -274,6 +306,7 @@ fn main() {
             "print" => eval_print(c),
             "conv" => eval_conv(c),
             "setmax" | "setmax2" => eval_setmax(c),
+            "layer" => eval_layer(c),
             k => panic!("kind {k}"),
         })
         .unwrap_or_else(|_| if c["k"] == "print" { json!(["!"]) } else { json!(-2) });
